@@ -92,16 +92,19 @@ def snap(x, what):
     return r.astype(int).tolist()
 
 
-def observe(p, loose=False):
+def observe(p, loose=False, unscale=1.0):
+    """unscale: the drawing was built at 1/unscale of its lattice size; report it back at lattice size
+    (similarity covariance: lengths scale by s, areas by s^2)."""
     full = []
+    k = unscale
     for poly in p.polygons_full:
-        full.append({"ext": snap(np.array(poly.exterior.coords), "ext"), "ints": [snap(np.array(i.coords), "int") for i in poly.interiors]})
-    return {"den": 1, "closed": bool(p.is_closed), "polys": [snap(np.array(q.exterior.coords), "poly") for q in p.polygons_closed],
-            "full": full, "area2": snap(float(p.area) * 2, "area"), "length": snap(float(p.length), "length"),
+        full.append({"ext": snap(np.array(poly.exterior.coords) * k, "ext"), "ints": [snap(np.array(i.coords) * k, "int") for i in poly.interiors]})
+    return {"den": 1, "closed": bool(p.is_closed), "polys": [snap(np.array(q.exterior.coords) * k, "poly") for q in p.polygons_closed],
+            "full": full, "area2": snap(float(p.area) * 2 * k * k, "area"), "length": snap(float(p.length) * k, "length"),
             "bodies": int(p.body_count)}
 
 
-def build(tm, names, pres, order, dup_vertices, process):
+def build(tm, names, pres, order, dup_vertices, process, shrink=1.0):
     from trimesh.path.entities import Line
     verts = []
     ents = []
@@ -124,7 +127,7 @@ def build(tm, names, pres, order, dup_vertices, process):
             ents.append(Line(list(range(start, start + len(piece)))))
         else:
             ents.append(Line([base[n] + j for j in piece]))
-    return tm.path.Path2D(entities=ents, vertices=np.array(verts, dtype=float), process=process)
+    return tm.path.Path2D(entities=ents, vertices=np.array(verts, dtype=float) * shrink, process=process)
 
 
 def run_case(tm, job):
@@ -132,9 +135,20 @@ def run_case(tm, job):
     rec = {"curves": [CURVES[n] for n in names], "m": MAPS["none"], "loose": False, "exc": "",
            "desc": {"drawing": names, "pieces": pres, "order": list(order), "dup_vertices": dup, "history": hist}}
     try:
-        p = build(tm, names, pres, order, dup, True if dup else (hist[0] != "raw"))
         kind = hist[0]
-        if kind in ("read", "raw"):
+        unscale = 1.0
+        if kind == "tiny":
+            # the same drawing at 10^-k of its size: rebuilt from segments, and through dict / dxf
+            unscale = 10.0 ** hist[1]
+            p = build(tm, names, pres, order, dup, True, shrink=1.0 / unscale)
+            if hist[2] == "dict":
+                p = tm.load_path(p.export(file_type="dict"))
+            elif hist[2] == "dxf":
+                data = p.export(file_type="dxf")
+                p = tm.load_path(io.BytesIO(data.encode() if isinstance(data, str) else data), file_type="dxf")
+        else:
+            p = build(tm, names, pres, order, dup, True if dup else (hist[0] != "raw"))
+        if kind in ("read", "raw", "tiny"):
             pass
         elif kind == "transform":
             if hist[2] == "warm":
@@ -154,7 +168,7 @@ def run_case(tm, job):
                 raw = data.encode() if isinstance(data, str) else data
                 p = tm.load_path(io.BytesIO(raw), file_type=ft)
             rec["loose"] = ft == "svg"
-        rec["obs"] = observe(p)
+        rec["obs"] = observe(p, unscale=unscale)
     except BaseException as e:  # noqa
         rec["exc"] = type(e).__name__ + ":" + str(e)[:60]
         rec["obs"] = {"den": 1, "closed": False, "polys": [], "full": [], "area2": 0, "length": 0, "bodies": 0}
@@ -175,12 +189,13 @@ def arc_cases(tm, tier, rs):
     fails = []
     n = 0
 
-    def build_circle(starts, dirs, order, with_square):
+    def build_circle(starts, dirs, order, with_square, ctrl=1):
         verts = [[x + 10, y + 10] for x, y in CIRC]
         ents = []
         k = len(starts)
-        for a, b, d in zip(starts, starts[1:] + [starts[0] + 12], dirs):
-            mid = (a + b) // 2
+        for j, (a, b, d) in enumerate(zip(starts, starts[1:] + [starts[0] + 12], dirs)):
+            # control point: near the start, in the middle or near the end of the arc
+            mid = [a + 1, (a + b) // 2, b - 1][(ctrl + j) % 3]
             tri = [a % 12, mid % 12, b % 12]
             ents.append(Arc(tri[::-1] if d else tri))
         if with_square:
@@ -191,7 +206,7 @@ def arc_cases(tm, tier, rs):
         return tm.path.Path2D(entities=ents, vertices=np.array(verts, dtype=float))
     for with_square in (False, True):
         ref = None
-        for starts in ([0, 6], [0, 4, 8], [0, 2, 6], [0, 2, 4, 8], [2, 6, 10], [0, 4, 6, 10]):
+        for starts in ([0, 6], [0, 4, 8], [0, 2, 6], [0, 2, 4, 8], [2, 6, 10], [0, 4, 6, 10], [0, 8], [0, 3], [1, 10], [0, 8, 10]):
             k = len(starts)
             ne = k + (1 if with_square else 0)
             orders = list(itertools.permutations(range(ne)))
@@ -199,7 +214,8 @@ def arc_cases(tm, tier, rs):
                 orders = [orders[i] for i in rs.permutation(len(orders))[:6]]
             for dirs in itertools.product((False, True), repeat=k):
                 for order in orders:
-                    p = build_circle(starts, list(dirs), list(order), with_square)
+                  for ctrl in (0, 1, 2):
+                    p = build_circle(starts, list(dirs), list(order), with_square, ctrl)
                     n += 1
                     val = (bool(p.is_closed), int(p.body_count), len(p.polygons_closed), len(p.polygons_full),
                            [len(q.interiors) for q in p.polygons_full])
@@ -232,7 +248,8 @@ def main(argv):
     cap_curve = 14 if tier == "quick" else 60
     per_drawing = 120 if tier == "quick" else 1500
     hists = [("read",), ("raw",)] + [("transform", m, w) for m in MAPS if m != "none" for w in ("cold", "warm", "partial")] + \
-            [("export", ft, w) for ft in ("dxf", "svg", "dict") for w in ("cold", "warm")]
+            [("export", ft, w) for ft in ("dxf", "svg", "dict") for w in ("cold", "warm")] + \
+            [("tiny", k, via) for k in (2, 4, 5, 6) for via in ("direct", "dict")] + [("tiny", 4, "dxf")]
     for names in DRAWINGS:
         pres_lists = [presentations(CURVES[n], maxp, rs, cap_curve) for n in names]
         combos = 1
@@ -272,7 +289,8 @@ def main(argv):
         V.violation(f["clause"], f)
     byh = {}
     for d in descs:
-        byh[d["history"][0] + (":" + d["history"][1] if len(d["history"]) > 1 else "")] = byh.get(d["history"][0] + (":" + d["history"][1] if len(d["history"]) > 1 else ""), 0) + 1
+        key = ":".join(str(x) for x in d["history"][:2])
+        byh[key] = byh.get(key, 0) + 1
     cov = {"states": states, "transitions": states, "traces_validated_against_impl": len(cases),
            "drawings": len(DRAWINGS), "cases_per_history": byh, "arc_presentations_compared": n_arc, "rejected": len(rejects),
            "tlc_wall_s": round(wall, 1), "samples": [descs[len(descs) // 3], descs[-1]]}
